@@ -31,6 +31,26 @@ func zzBuildInput(mode, n, vocab int) []byte {
 	if mode == 5 {
 		return []byte(zzDebugInputs[n])
 	}
+	if mode == 6 { // operations only, keyword-like names allowed
+		g := &zzGen{budget: vocab, kwNames: true, opsOnly: true}
+		for i := 0; i < n; i++ {
+			if i > 0 {
+				g.w(" ")
+			}
+			g.definition()
+		}
+		return g.out
+	}
+	if mode == 7 { // operations only
+		g := &zzGen{budget: vocab, opsOnly: true}
+		for i := 0; i < n; i++ {
+			if i > 0 {
+				g.w(" ")
+			}
+			g.definition()
+		}
+		return g.out
+	}
 	var in []byte
 	for i := 0; i < n; i++ {
 		c := nondetChoice(vocab + 1)
@@ -234,8 +254,10 @@ func VerifC05Parse(mode, n, vocab int) {
 // ---------------------------------------------------------------- grammar-directed generator (mode 4)
 
 type zzGen struct {
-	out    []byte
-	budget int
+	out     []byte
+	budget  int
+	kwNames bool
+	opsOnly bool
 }
 
 func (g *zzGen) w(s string) { g.out = append(g.out, s...) }
@@ -253,7 +275,16 @@ func (g *zzGen) opt() bool {
 
 // name: one symbolic letter (solver-decided), so that keyword-like and ordinary names share a path
 // unless the code distinguishes them.
+var zzKeywordNames = []string{"query", "fragment", "on", "mutation", "subscription", "true", "null", "type"}
+
 func (g *zzGen) name() {
+	if g.kwNames {
+		// GraphQL keywords are not reserved: they are legal field/argument/alias names
+		if c := nondetChoice(len(zzKeywordNames) + 1); c < len(zzKeywordNames) {
+			g.w(zzKeywordNames[c])
+			return
+		}
+	}
 	b := nondetByte()
 	verifAssume((b >= 'a' && b <= 'z') || (b >= 'A' && b <= 'Z') || b == '_')
 	g.out = append(g.out, b)
@@ -450,6 +481,10 @@ func (g *zzGen) description() {
 }
 
 func (g *zzGen) definition() {
+	if g.opsOnly {
+		g.operation()
+		return
+	}
 	k := nondetChoice(16)
 	if k < 9 {
 		g.description()
@@ -615,4 +650,81 @@ func zzGenDocument(defs, budget int) []byte {
 		g.definition()
 	}
 	return g.out
+}
+
+// ---------------------------------------------------------------- H-C05d limits
+
+func zzSetDepth(d *ast.Document, set int) int {
+	max := 0
+	for _, sref := range d.SelectionSets[set].SelectionRefs {
+		sel := d.Selections[sref]
+		inner := -1
+		switch sel.Kind {
+		case ast.SelectionKindField:
+			if d.Fields[sel.Ref].HasSelections {
+				inner = d.Fields[sel.Ref].SelectionSet
+			}
+		case ast.SelectionKindInlineFragment:
+			if d.InlineFragments[sel.Ref].HasSelections {
+				inner = d.InlineFragments[sel.Ref].SelectionSet
+			}
+		}
+		if inner >= 0 {
+			if x := zzSetDepth(d, inner); x > max {
+				max = x
+			}
+		}
+	}
+	return max + 1
+}
+
+// zzRealDepthFields: the real selection depth (deepest nesting of selection sets in any operation or
+// fragment) and the real number of fields of a parsed document.
+func zzRealDepthFields(d *ast.Document) (int, int) {
+	depth := 0
+	for i := range d.OperationDefinitions {
+		if d.OperationDefinitions[i].HasSelections {
+			if x := zzSetDepth(d, d.OperationDefinitions[i].SelectionSet); x > depth {
+				depth = x
+			}
+		}
+	}
+	for i := range d.FragmentDefinitions {
+		if d.FragmentDefinitions[i].HasSelections {
+			if x := zzSetDepth(d, d.FragmentDefinitions[i].SelectionSet); x > depth {
+				depth = x
+			}
+		}
+	}
+	return depth, len(d.Fields)
+}
+
+// VerifC05Limits: H-C05d. A document whose real depth or field count exceeds a limit is never accepted by
+// ParseWithLimits, for every limit pair (symbolic); the reported totals never under-count.
+func VerifC05Limits(mode, n, vocab int) {
+	in := zzBuildInput(mode, n, vocab)
+	verifObserveBytes("input", in)
+	maxDepth := nondetInt()
+	maxFields := nondetInt()
+	verifAssume(maxDepth >= 0 && maxDepth <= 6 && maxFields >= 0 && maxFields <= 8)
+	doc := ast.NewSmallDocument()
+	doc.Input.ResetInputBytes(in)
+	report := operationreport.Report{}
+	p := NewParser()
+	p.shouldIndex = false
+	stats, err := p.ParseWithLimits(TokenizerLimits{MaxDepth: maxDepth, MaxFields: maxFields}, doc, &report)
+	if err != nil {
+		verifCover("rejected by a limit")
+		return
+	}
+	if report.HasErrors() {
+		verifCover("rejected by syntax")
+		return
+	}
+	verifCover("accepted")
+	depth, fields := zzRealDepthFields(doc)
+	verifAssert(!(maxDepth > 0 && depth > maxDepth), "accepted => real depth <= MaxDepth")
+	verifAssert(!(maxFields > 0 && fields > maxFields), "accepted => real field count <= MaxFields")
+	verifAssert(stats.TotalDepth >= depth, "TotalDepth never under-counts the real depth")
+	verifAssert(stats.TotalFields >= fields, "TotalFields never under-counts the real fields")
 }
